@@ -86,7 +86,8 @@ def main():
             if ti == 0:
                 # corpus table: two String columns whose padded sizes are permutations of one another from record to record
                 ncols, cols, int_only, types, nrows = 3, ["c0", "c1", "c2"], False, ["s", "i", "s"], 0
-                rows = [("ab", 1, "abcde"), ("abcdef", 2, "xy"), ("wxyzvu", 3, ""), ("", 4, "abcde"), ("x", 5, "u")]
+                rows = [("ab", 1, "abcde"), ("abcdef", 2, "xy"), ("wxyzvu", 3, ""), ("", 4, "abcde"), ("x", 5, "u"),
+                        ("abcdefgh", 6, "z")]        # a cell exactly as wide as the numpy field (S8)
             for _ in range(nrows):
                 row = []
                 for t in types:
@@ -97,7 +98,7 @@ def main():
                     else:
                         # lengths on both sides of the 4-byte padding boundary: two string cells of one record can then have
                         # padded sizes that are a permutation of another record's
-                        row.append(rng.choice(["u", "vw", "x", "abc", "A b", "a+b", "a b", "abcde", "wxyzvu", ""]))
+                        row.append(rng.choice(["u", "vw", "x", "abc", "A b", "a+b", "a b", "abcde", "wxyzvu", "", "wxyzvu12"]))
                 rows.append(tuple(row))
             # ---- three backends
             def build(backend):
@@ -125,7 +126,7 @@ def main():
                                          for v in row) + "\n")
                 apps["csv"] = CSVHandler(path)
             seqname = {"numpy": "q", "iterdata": "q", "csv": "sequence"}
-            for _ in range(4 if T == "quick" else 8):
+            for qi in range(4 if T == "quick" else 8):
                 want_cols = rng.sample(cols, rng.randint(1, ncols)) if rng.random() < 0.7 else list(cols)
                 rng_slice = None
                 if rng.random() < 0.5:
@@ -140,7 +141,7 @@ def main():
                         clauses.append((cols[j], rng.choice(list(PYOP)), "col", cols[k]))
                     else:
                         if types[j] == "s":
-                            clauses.append((cols[j], rng.choice(["=", "!="]), "const", rng.choice(["u", "vw", "zz", "A b", "a+b", "a b"])))
+                            clauses.append((cols[j], rng.choice(["=", "!="]), "const", rng.choice(["u", "vw", "zz", "A b", "a+b", "a b", "wxyzvu12", "wxyzvu123"])))
                         elif types[j] == "d":
                             clauses.append((cols[j], rng.choice(list(PYOP)), "const", rng.choice([0.5, 1.5, 0.0, 2.0, 1e+20, 12345678.5])))
                         else:
@@ -152,6 +153,9 @@ def main():
                     o_ = rng.choice(list(PYOP))
                     big_, small_ = rng.choice([(12, 1), (10, 1), (-12, -1), (25, 2)])
                     clauses = clauses[:1] + [(cols[j], o_, "const", big_), (cols[j], o_, "const", small_)]
+                if ti == 0 and qi < 2:
+                    # a constant longer than the width of the numpy field whose first 8 characters are a cell
+                    clauses = [("c0", ["=", "!="][qi], "const", "abcdefgh9")]
                 want = reference(cols, types, rows, want_cols, rng_slice, clauses)
                 want_n = [[norm(v) for v in row] for row in want]
                 # Gallina model for integer tables (numbers only)
